@@ -23,6 +23,7 @@ import vlib
 PREFIX = "C19:"
 WORKERS = 6
 CHUNK = 60000
+TICK_MS = 100000
 
 MC = {"quick": "Timeout_quick.cfg", "thorough": "Timeout_thorough.cfg"}
 GEN = {"quick": [("Timeout_gen.cfg", 500, 24), ("Timeout_gen_deep.cfg", 250, 30)],
@@ -131,6 +132,8 @@ def violation_key(v, recs):
     i = v["l"] - v["base"]          # index into recs of the record at which the clause failed
     rec = recs[i] if 0 <= i < len(recs) else {}
     pre = recs[i - 1]["obs"] if i >= 1 else reset["obs"]
+    if rec.get("e") == "Chain":
+        return f"{v['tag'][len(PREFIX):]}@chain:{rec['pool']}"
     if rec.get("e") == "Wiring":
         return f"{v['tag'][len(PREFIX):]}@wiring:{rec['pool']}:{rec['stage']}"
     r = v.get("r", 0)
@@ -177,6 +180,8 @@ def run(pid, tier, seed, t0):
         "timer wakes the task at the deadline and that a poll at/after the deadline never returns Pending",
         "'the inner service resolved first' is decided where it is observable without ambiguity: the request was in the "
         "hands of the inner service and its response was available strictly before the deadline (ties go either way)",
+        "redirects: the caller's request is a chain of 1-3 hops answered by an in-memory HTTP/1 peer after virtual delays; the "
+        "deadline counts from the original issue; an arrival and the expiry on the same instant may resolve either way",
         "bounds: the model is exhaustive only within the constants of the configuration; beyond that seeded simulation "
         "and random walks; one origin",
     ]
@@ -218,6 +223,24 @@ def run(pid, tier, seed, t0):
             if asbuilt[name] is None:
                 raise vlib.ToolError(f"as-built variant {name} is not caught by the model properties")
 
+    # ---- 1b. the redirect dimension (TimeoutChain.tla): exhaustive over the vectors, prints (vector, outcome) pairs
+    ch = vlib.tlc("TimeoutChain.tla", "TimeoutChain_quick.cfg", pid, workers=1, timeout=600, coverage=True)
+    if not (ch.finished and ch.violated is None):
+        vlib.log(ch.out[-3000:])
+        raise vlib.ToolError(f"model check of the redirect chain failed: {ch.violated}")
+    allowed = {}
+    for p in ch.printed("VECTOR"):
+        allowed.setdefault(json.dumps(p["v"], sort_keys=True), set()).add((p["res"], p["at"]))
+    vecs = [json.loads(k) for k in allowed]
+    chains = os.path.join(d, "chains.ndjson")
+    vlib.write_ndjson(chains, vecs)
+    chain_asbuilt = None
+    if tier == "thorough":
+        ca = vlib.tlc("TimeoutChain.tla", "TimeoutChain_asbuilt.cfg", pid, workers=1, timeout=600)
+        chain_asbuilt = ca.violated
+        if chain_asbuilt is None:
+            raise vlib.ToolError("as-built variant TimeoutInsideRedirect is not refuted by the chain properties")
+
     # ---- 2. generate behaviours
     behs = []
     gen_info = []
@@ -239,7 +262,18 @@ def run(pid, tier, seed, t0):
     # the wiring of the layer in client/builder.rs (clients built by the Builder over a duplex transport); its
     # records are appended to the walk trace (one monitor run)
     wiring = os.path.join(d, "wiring-trace.ndjson")
-    wi = json.loads(vlib.run_harness("timeout", ["wiring", "--out", wiring]))
+    wi = json.loads(vlib.run_harness("timeout", ["wiring", "--out", wiring, "--vectors", chains]))
+    # conformance of the redirect chains: the real (result, tick) must be one of the model's outcomes for that vector
+    crecs = [x for x in vlib.read_ndjson(wiring) if x["e"] == "Chain"]
+    chain_drift = []
+    for vec, x in zip(vecs, crecs):
+        got = ({"Ok": "ok", "Timeout": "timeout"}.get(x["res"], x["res"]), x["ms"] // TICK_MS)
+        if got not in allowed[json.dumps(vec, sort_keys=True)] or x["ms"] % TICK_MS > 5:
+            chain_drift.append({"vector": x["pool"], "real": [x["res"], x["ms"]], "model": sorted(allowed[json.dumps(vec, sort_keys=True)])})
+    if len(crecs) != len(vecs):
+        raise vlib.ToolError("the harness did not run every chain vector")
+    if chain_drift:
+        vlib.log(f"DRIFT: {len(chain_drift)} of {len(vecs)} redirect chains resolve differently from TimeoutChain.tla: {chain_drift[:3]}")
     with open(wtrace, "a") as f:
         f.write(open(wiring).read())
 
@@ -297,9 +331,15 @@ def run(pid, tier, seed, t0):
         "actions_never_taken": never,
         "generation": gen_info,
         "replay": {k: rep[k] for k in ("behaviours", "conformant", "drifted", "steps", "panics", "drift_kinds", "drift_samples", "outcomes")},
-        "drift": rep["drifted"],
+        "drift": rep["drifted"] + len(chain_drift),
         "walk": {k: wk[k] for k in ("runs", "steps", "panics", "actions", "outcomes")},
         "builder_wiring_cases": wi["cases"],
+        "redirect_chains": {"model": "TimeoutChain.tla / TimeoutChain_quick.cfg", "states": ch.distinct, "transitions": ch.generated,
+                            "vectors": len(vecs), "vector_outcome_pairs": sum(len(a) for a in allowed.values()),
+                            "tlc_coverage": {a: {"distinct": v[0], "taken": v[1]} for a, v in sorted(ch.coverage().items())},
+                            "real_outcomes": {k: sum(1 for x in crecs if x["res"] == k) for k in sorted({x["res"] for x in crecs})},
+                            "drift": len(chain_drift), "drift_samples": chain_drift[:5],
+                            "asbuilt_TimeoutInsideRedirect_refuted_by": chain_asbuilt},
         "expiry_classes_on_real_code": {"by_stage": by_stage, "cells_seen": len(seen), "cells_missing": missing},
         "monitor_records": nrec,
         "clauses_falsified": sorted({v["tag"] for v in all_viol}),
@@ -318,6 +358,25 @@ def replay(pid, path):
     obj = json.load(open(path))
     recs = obj["replay"]["records"]
     d = vlib.outdir(pid)
+    at = obj["replay"].get("at", 0)
+    bad = recs[at] if 0 <= at < len(recs) else {}
+    if bad.get("e") in ("Chain", "Wiring"):
+        # a builder-wiring scenario / one redirect chain: run it again (the chain vector is named in the record)
+        args = ["wiring", "--out", os.path.join(d, "replay-again.ndjson")]
+        if bad["e"] == "Chain":
+            dur, delays = bad["pool"][3:].split(":")
+            vec = {"n": bad["c"], "delay": [99 if x == "never" else int(x) for x in delays.split(",")], "dur": int(dur)}
+            vlib.write_ndjson(os.path.join(d, "replay-chain.ndjson"), [vec])
+            args += ["--vectors", os.path.join(d, "replay-chain.ndjson")]
+        vlib.run_harness("timeout", args)
+        viol, _ = monitor(pid, os.path.join(d, "replay-again.ndjson"))
+        mine = [v for v in viol if v["tag"] == obj["replay"]["clause"]]
+        if mine:
+            print(f"VIOLATION property={pid} replay={path}")
+            vlib.log("reproduced: " + ", ".join(sorted({v['tag'] for v in mine})))
+            return 1
+        print(f"not reproduced on the current tree: {obj['key']}")
+        return 0
     # the recorded actions up to the drain are re-executed (leniently: on different code an action may not be
     # enabled any more); then the harness drains and probes the way the recorded run was drained
     steps = []
